@@ -72,7 +72,7 @@ def make_cases(ctx):
         else:
             fresh = [n for n in sl.NAMES + ["new run"] if n not in names]
             new = {"name": rng.choice(fresh), "out": entry_spec(rng, size)}
-        cases.append({"earlier": hist, "new": new, "size_class": size})
+        cases.append({"earlier": hist, "new": new, "size_class": size, "later": entry_spec(rng, "tiny")})
     return cases
 
 
@@ -90,6 +90,8 @@ class CaseRun:
         self.old_parsed = json.loads(self.old) if self.old is not None else None
         self.out = sl.build_output(case["new"]["out"])
         self.name = case["new"]["name"]
+        self.follow = {}
+        self.follow_budget = 60 if ctx.quick else 250
 
     def save_fn(self):
         self.save.save_json(self.path, self.name, self.out)
@@ -112,6 +114,25 @@ class CaseRun:
             fired = code == cl.EXIT_INJECTED
             outcome = f"exit {code}"
         content, others = cl.read_dir(self.dir)
+        # the session goes on: a later ordinary save (of a SMALL result) in a healthy process must find a usable file,
+        # keep every run saved before the interrupted save, and add its own entry
+        if fired and getattr(self, "follow_budget", 0) > 0:
+            self.follow_budget -= 1
+            verdict = {"ok": True}
+            try:
+                self.save.save_json(self.path, "later_run", sl.build_output(self.case["later"]))
+                after, _ = cl.read_dir(self.dir)
+                parsed = json.loads(after)
+                lost = [k for k, v in (self.old_parsed or {}).items()
+                        if not (isinstance(parsed, dict) and k in parsed and sl.json_same(v, parsed[k]))]
+                if lost or "later_run" not in parsed:
+                    verdict = {"ok": False, "why": "runs missing after the follow-up save", "lost_runs": lost,
+                               "later_run_present": "later_run" in parsed}
+            except BaseException as e:
+                after, _ = cl.read_dir(self.dir)
+                verdict = {"ok": False, "why": f"follow-up save / parse failed: {type(e).__name__}: {str(e)[:120]}",
+                           "file_after_followup": _show(after)}
+            self.follow[(idx, mode)] = verdict
         return content, others, fired, outcome
 
 
@@ -298,6 +319,15 @@ def run_case(ctx, ci, case, mism):
         ctx.count("fault_at", ev["kind"] + ("(in close)" if ev.get("nested") == "close" else ""))
         if idx >= 2:
             ctx.nontrivial.add((ci, idx, mode))
+        fv = run.follow.get((idx, mode))
+        if fv is not None:
+            ctx.count("followup_save", "fine" if fv["ok"] else "broken")
+            if not fv["ok"]:
+                ctx.violation("C20 oracle (session continues): after the interrupted save a later ordinary save does not find / "
+                              "produce a file holding every earlier run: " + fv["why"],
+                              dict(rep_base, interrupted_operation_index=idx, interrupted_operation=_describe(ev),
+                                   mode=_mode_name(mode), scheme=scheme, file_after_fault=_show(content),
+                                   other_files_after_fault=others, followup=fv), found_input=True)
         ok, detail = oracle(run, content)
         dg = sl.digest(content)
         explained = model_ok and allowed.get((idx, mode)) == dg
